@@ -84,6 +84,13 @@ CHECKS["C17"] = (
     "5.C17",
 )
 
+CHECKS["C03"] = (
+    "bounded symbolic execution (CrossHair+z3) over symbolic plain values (character selectors / typed values, single or list, field or keyword) and a symbolic selector into a table of modifier chains; real SigmaDetectionItem.from_mapping vs a table-driven reference of the modifier semantics",
+    "Values: every string of length <= 2 (quick) / 3 (thorough) over an 11-character alphabet (wildcards, backslash, percent, dashes and slashes at word/non-word boundaries, space, dot, non-ASCII letter, digit) plus 12 typed / longer values, single or in a 2-element list, with a field or as keyword; chains: all 33 single modifiers and 58 chains of length 2..4, admissible and inadmissible. Oracle: equal abstract values (type, content, wildcards, placeholders, flags), value linking and negation - or a SigmaError and nothing else for an inadmissible chain.",
+    TB,
+    "5.C03",
+)
+
 NOT_APPLICABLE = {}
 
 ALL = [f"C{n:02d}" for n in range(1, 21)]
